@@ -21,6 +21,10 @@
 (* codes), bounds n likewise; f = "nz" on a call says that its zero bound  *)
 (* / value is the float -0.0 (equal to +0.0 in every comparison, but       *)
 (* value / -0.0 has the opposite sign).                                    *)
+(* On the float lenses "fval" / "sval" the code NaNV stands for an         *)
+(* observed value (or a bound n) that is NOT A NUMBER: unordered with      *)
+(* everything, itself included -- never below anything, never equal to     *)
+(* anything; offered by the models whose Ops contain "nan".                *)
 (* One shape per variable: act = [op,l,n,d,f,x,y,z,fm,pg],                 *)
 (* res = [k,b,log,p,t,ev]                                                  *)
 (***************************************************************************)
@@ -52,6 +56,9 @@ RV(l, c) == IF l \in SLens THEN c - SOff ELSE c  \* the number a code stands for
 Sgn(x)   == IF x > 0 THEN 1 ELSE IF x < 0 THEN -1 ELSE 0
 CoLens   == {"iter", "eval", "fval", "obj", "sval", "ival"}   \* change-of with the PartialEq checker
 DeltaLens == {"iter", "eval", "obj", "ival"}     \* change-of with the delta checker (Ord + Sub)
+FLens    == {"fval", "sval"}                     \* Target = f64: the value seen (and the bound) may be NaN
+NaNV     == 900000                               \* code of "not a number" on a float lens
+Unord(l, v, n) == l \in FLens /\ (v = NaNV \/ n = NaNV)   \* v and n cannot be compared
 
 ---------------------------------------------------------------------------
 (* Fractions.  Reduce(v, n) is value/n in lowest terms; v/0 follows the    *)
@@ -129,6 +136,10 @@ LtInit(l) ==
 
 LessThanN(l, n, f) ==
     IF ~Readable(l) THEN res' = RErr /\ UNCHANGED state
+    ELSE IF Unord(l, obs[l], n) THEN              \* not below n; value / n is not a number either
+         /\ res' = RB(FALSE)
+         /\ progress' = [progress EXCEPT ![l] = Frac(0, 0)]
+         /\ UNCHANGED <<obs, prev, rcN, rcK>>
     ELSE /\ res' = RB(obs[l] < n)
          /\ progress' = [progress EXCEPT ![l] = Ratio(l, obs[l], n, f)]
          /\ UNCHANGED <<obs, prev, rcN, rcK>>
@@ -138,7 +149,7 @@ EveryN(l, n) ==
     ELSE res' = RB(obs[l] % n = 0) /\ UNCHANGED state
 
 Abs(x) == IF x < 0 THEN -x ELSE x
-Differs(d, a, b) == IF d = NoVal THEN a # b ELSE Abs(a - b) >= d
+Differs(d, a, b) == IF d = NoVal THEN a # b \/ a = NaNV ELSE Abs(a - b) >= d    \* (NaN differs from NaN)
 
 CoInit(l) ==
     /\ prev' = [prev EXCEPT ![l] = NoVal]
@@ -243,6 +254,12 @@ SLoop(l, n, d, f) ==
         /\ res' = R("err", NoVal, <<>>, 0, 1)
         /\ progress' = [progress EXCEPT ![l] = Frac(0, 1)]
         /\ obs' = [m \in Lens |-> IF m = "iter" THEN 0 ELSE obs[m]]
+        /\ UNCHANGED <<prev, rcN, rcK>>
+    ELSE IF Unord(l, obs[l], n) THEN     \* the value is not below n: the first test ends the loop
+        /\ d > 0
+        /\ res' = R("ok", NoVal, <<>>, 0, 1)
+        /\ obs' = [m \in Lens |-> IF m = "iter" THEN 0 ELSE obs[m]]
+        /\ progress' = [progress EXCEPT ![l] = Frac(0, 0)]
         /\ UNCHANGED <<prev, rcN, rcK>>
     ELSE LET s == SLoopRun(n, d, [v |-> obs[l], p |-> 0, t |-> 0, log |-> <<>>]) IN
         /\ d > 0
@@ -368,10 +385,12 @@ Acts ==
         UNION {{A("set", l, Z, Z, "-", v, Z, Z, NoForm) : v \in ValOf(l) \cup {NoVal}} : l \in Lens}
         \cup {A("set", "obj", Z, Z, "-", Gone, Z, Z, NoForm) : l \in Lens \cap {"obj"}}
         \cup {A("set", "sval", Z, Z, "nz", SOff, Z, Z, NoForm) : l \in Lens \cap {"sval"}}      \* -0.0
+        \cup (IF "nan" \in Ops THEN {A("set", l, Z, Z, "-", NaNV, Z, Z, NoForm) : l \in Lens \cap FLens} ELSE {})
      ELSE {})
     \cup (IF "lt" \in Ops THEN
         UNION {{A("lt", l, n, Z, "-", Z, Z, Z, NoForm) : n \in NsOf(l)} : l \in Lens \cap LtLens}
         \cup {A("lt", "sval", SOff, Z, "nz", Z, Z, Z, NoForm) : l \in Lens \cap {"sval"}}       \* n = -0.0
+        \cup (IF "nan" \in Ops THEN {A("lt", l, NaNV, Z, "-", Z, Z, Z, NoForm) : l \in Lens \cap LtLens \cap FLens} ELSE {})
         \cup {A("lt_init", l, Z, Z, "-", Z, Z, Z, NoForm) : l \in Lens \cap LtLens}
      ELSE {})
     \cup (IF "sloop" \in Ops THEN
@@ -484,8 +503,15 @@ UnreadableIsError ==
 \* (as a fraction: num * n = value * den; the value of v / 0 is left to the arithmetic)
 \* (v, n: the NUMBERS seen and given -- of either sign on the signed lenses, where dividing by a
 \* negative n turns the order of the quotients round but not the truth of "v is below n")
+\* a value that is not a number is not below n, and n that is not a number has nothing below it
+LessThanUnordered ==
+    [][ Is("lt") /\ obs[act'.l] >= 0 /\ Unord(act'.l, obs[act'.l], act'.n) =>
+          /\ Told(FALSE)
+          /\ progress'[act'.l].den = 0 /\ progress'[act'.l].num = 0
+          /\ OthersKeep(progress', progress, act'.l)
+          /\ <<obs, prev, rcN, rcK>>' = <<obs, prev, rcN, rcK>> ]_vars
 LessThanExact ==
-    [][ Is("lt") /\ obs[act'.l] >= 0 =>
+    [][ Is("lt") /\ obs[act'.l] >= 0 /\ ~Unord(act'.l, obs[act'.l], act'.n) =>
           LET v == RV(act'.l, obs[act'.l])  n == RV(act'.l, act'.n)  pr == progress'[act'.l] IN
           /\ Told(v < n)
           /\ n # 0 => pr.den > 0 /\ pr.num * n = v * pr.den
@@ -505,7 +531,7 @@ EveryExact ==
 ChangeExact ==
     [][ Is("co") /\ obs[act'.l] >= 0 =>
           LET v == obs[act'.l]  q == prev[act'.l]  d == act'.d IN
-          /\ Told(q = NoVal \/ (d = NoVal /\ v # q) \/ (d # NoVal /\ (v - q >= d \/ q - v >= d)))
+          /\ Told(q = NoVal \/ (d = NoVal /\ (v # q \/ v = NaNV)) \/ (d # NoVal /\ (v - q >= d \/ q - v >= d)))
           /\ prev'[act'.l] = (IF res'.b = 1 THEN v ELSE q)
           /\ OthersKeep(prev', prev, act'.l)
           /\ <<obs, progress, rcN, rcK>>' = <<obs, progress, rcN, rcK>> ]_vars
@@ -588,8 +614,13 @@ LoopFromAnywhere ==
 \* it makes exactly the passes "while the value is below n" implies -- every pass made was due, the
 \* loop stopped at the first value that is not below n (p = 0 if v0 is not) -- tests once more,
 \* its body sees v0, v0 + d, ..., counts the passes, and leaves progress = last value / n
+\* ... and a loop whose value is not a number when it is tested stops there: no pass, one test
+SLoopUnordered ==
+    [][ Is("sloop") /\ obs[act'.l] >= 0 /\ Unord(act'.l, obs[act'.l], act'.n) =>
+          /\ res'.k = "ok" /\ res'.p = 0 /\ res'.t = 1 /\ res'.log = <<>>
+          /\ obs'[act'.l] = obs[act'.l] ]_vars
 SLoopExact ==
-    [][ Is("sloop") /\ obs[act'.l] >= 0 =>
+    [][ Is("sloop") /\ obs[act'.l] >= 0 /\ ~Unord(act'.l, obs[act'.l], act'.n) =>
           LET l == act'.l  v0 == obs[l]  n == act'.n  d == act'.d  p == res'.p
               pr == progress'[l]  vn == RV(l, v0 + p * d)  nn == RV(l, n) IN
           /\ res'.k = "ok" /\ p >= 0 /\ res'.t = p + 1
